@@ -183,20 +183,48 @@ func ReducesToRepeat(n *Node) bool {
 		return true
 	}
 	if n.K == KConcat {
+		// adjacent items over the SAME single-character atom coalesce (aa* -> a+, [ab][ab]* -> [ab]+):
+		// the concatenation reduces to one repeater iff every element is that atom or a repeat of it
 		sawRepeat := false
+		var first *Node
 		for _, k := range n.Kids {
+			var atom *Node
 			switch {
 			case singleCharAtom(k):
+				atom = k
 			case k.K == KRepeat && singleCharAtom(k.Kids[0]):
+				atom = k.Kids[0]
 				sawRepeat = true
 			case k.K == KOptSet || k.K == KComment || k.K == KEmpty:
+				continue
 			default:
+				return false
+			}
+			if first == nil {
+				first = atom
+			} else if !sameAtom(first, atom) {
 				return false
 			}
 		}
 		return sawRepeat
 	}
 	return false
+}
+
+// sameAtom: two single-character atoms that certainly denote different sets return false;
+// anything that might be the same set returns true (over-approximation).
+func sameAtom(a, b *Node) bool {
+	if a.K != b.K {
+		// a class may denote the same set as a literal or '.', be conservative
+		return a.K == KClass || b.K == KClass
+	}
+	switch a.K {
+	case KLit:
+		return a.R == b.R || a.E.IC
+	case KAny:
+		return true
+	}
+	return true // two classes: assume they may be equal
 }
 
 func (g *G) newName() string {
